@@ -7,6 +7,7 @@ concrete input of that class at once: the token identities prove that the return
 bytes in the right order, and the stream position proves how many bytes were consumed. Nothing is compiled or run; the
 interpreter walks the HIR trees of the functions as rustc resolved them.
 """
+import re
 from . import hir as H
 
 INT_BITS = {"u8": 8, "u16": 16, "u32": 32, "u64": 64, "u128": 128, "usize": 64, "i8": 8, "i16": 16, "i32": 32, "i64": 64, "i128": 128, "isize": 64}
@@ -218,6 +219,43 @@ class Mini:
         self.crate = crate
         self.depth = 0
         self.steps = 0
+
+    def default_of(self, ty, depth):
+        """the value of `<ty as Default>::default()` for std collections, integers, bool, Option and structs that derive it (a struct
+        of this crate without a hand-written `impl Default`: every field its type's default) -> (value,) or None"""
+        ty = (ty or "").strip()
+        if depth > 4:
+            return None
+        if ty.startswith(("std::vec::Vec", "std::collections::VecDeque", "std::collections::btree::set::BTreeSet", "std::collections::BTreeSet", "std::string::String")):
+            return ([],)
+        if ty.startswith(("std::collections::btree::map::BTreeMap", "std::collections::BTreeMap")):
+            return (BTree(),)
+        if ty.startswith(("std::collections::HashMap", "std::collections::hash::map::HashMap")):
+            return (HMap(),)
+        if ty.startswith(("std::option::Option", "Option<")):
+            return ("None",)
+        if ty in INT_BITS:
+            return (0,)
+        if ty == "bool":
+            return (False,)
+        base = re.sub(r"<.*$", "", ty)
+        F = self.FB.get(self.crate)
+        a = F.adt(base) if F is not None and base.startswith("crate::") else None
+        if a is not None and a["kind"] == "Struct":
+            for im in F.impls():
+                if (im.get("trait") or "").endswith("default::Default") and re.sub(r"<.*$", "", im.get("self_ty") or "") == base and any(it[0] == "fn" and F.fn(it[2]) is not None and F.fn(it[2]).get("hir") is not None and not F.fn(it[2]).get("derived") for it in im["items"]):
+                    # a Default impl with a body of its own (hand-written, or a derive whose expansion is available): interpret that
+                    for it in im["items"]:
+                        if it[0] == "fn" and it[1] == "default":
+                            return (self.call_fn(it[2], []),)
+            fields = {}
+            for fname, fty in a["variants"][0][2]:
+                d = self.default_of(fty, depth + 1)
+                if d is None:
+                    return None
+                fields[fname] = d[0]
+            return (("struct", base, fields),)
+        return None
 
     # ---- function lookup across crates ---------------------------------------------------------------------
     def find_fn(self, path, crate):
@@ -1001,12 +1039,9 @@ class Mini:
             return HMap()
         if p == "std::default::Default::default":
             ty = H.strip(n)[4] or ""
-            if ty.startswith("std::vec::Vec"):
-                return []
-            if ty.startswith("std::collections::btree::map::BTreeMap"):
-                return BTree()
-            if ty in INT_BITS:
-                return 0
+            dv = self.default_of(ty, 0)
+            if dv is not None:
+                return dv[0]
         if p == "std::convert::TryInto::try_into" or p == "std::convert::TryFrom::try_from":
             ga = H.call_gargs(n)
             r = self.try_from(ga, args[0], swap=p.endswith("try_from"))
@@ -1293,6 +1328,24 @@ class Mini:
                 return len(recv) == 0
             if nm in ("as_slice", "as_str", "as_bytes", "as_mut_slice") and not args:
                 return recv
+            if nm in ("starts_with", "ends_with") and isinstance(recv, list) and len(args) == 1 and isinstance(args[0], list):
+                q = args[0]
+                if len(q) > len(recv):
+                    return False
+                part = recv[:len(q)] if nm == "starts_with" else recv[len(recv) - len(q):]
+                if all(isinstance(x, int) and not isinstance(x, bool) for x in part + q):
+                    return part == q
+                if all(a is b or (isinstance(a, Tok) and isinstance(b, Tok) and a == b) for a, b in zip(part, q)):
+                    return True
+                raise Unsupported("starts_with on abstract bytes")
+            if nm in ("split_first", "split_first_mut") and isinstance(recv, list):
+                return ("Some", (recv[0], recv[1:])) if recv else "None"
+            if nm in ("split_last", "split_last_mut") and isinstance(recv, list):
+                return ("Some", (recv[-1], recv[:-1])) if recv else "None"
+            if nm in ("split_at", "split_at_mut") and isinstance(recv, list) and isinstance(args[0], int):
+                if args[0] > len(recv):
+                    raise Panic("split_at beyond the end")
+                return (recv[:args[0]], recv[args[0]:])
         if p == "std::iter::traits::iterator::Iterator::enumerate":
             return ("iter", [(i, x) for i, x in enumerate(self.iterate(recv))])
         if p == "std::iter::traits::iterator::Iterator::rev":
